@@ -1,6 +1,7 @@
 package gq
 
 import (
+	"encoding/json"
 	"fmt"
 	"reflect"
 	"sort"
@@ -72,6 +73,9 @@ type World struct {
 	// answers a field every time it is asked
 	KeepLists bool
 	kept      map[string]interface{}
+	// the argument maps the resolvers of the current request were given, and what they held then
+	keptArgs     []keptArgs
+	argsTampered string
 	// LendQuery: the application is able to serve a mutation root although the universe's schema has none (the query
 	// root's node stands in): what keeps mutations from being executed is then the schema alone
 	LendQuery bool
@@ -377,7 +381,28 @@ func (w *World) TakeCalls() []Call {
 	defer w.mu.Unlock()
 	c := w.calls
 	w.calls = nil
+	for _, k := range w.keptArgs {
+		am := ValMap{}
+		for n, a := range k.raw {
+			am[n] = ArgToValue(a)
+		}
+		if now := vhJS(am); now != k.was && w.argsTampered == "" {
+			w.argsTampered = fmt.Sprintf("the arguments map handed to the resolver of %s was changed after the call: it was %s, it is %s", k.at, k.was, now)
+		}
+	}
+	w.keptArgs = nil
 	return c
+}
+
+type keptArgs struct {
+	at  string
+	raw map[string]interface{}
+	was string
+}
+
+func vhJS(v interface{}) string {
+	b, _ := json.Marshal(v)
+	return string(b)
 }
 
 func (w *World) node(id string) interface{} {
@@ -513,6 +538,11 @@ func (w *World) resolveVia(via, id string, field *ggql.Field, args map[string]in
 	if !w.U.IsSilent(id) {
 		w.mu.Lock()
 		w.calls = append(w.calls, Call{Node: id, Field: field.Name, Args: am, Via: via})
+		if 0 < len(args) {
+			// the application keeps the map it was given (a resolver that works lazily, a subscription): it is the
+			// application's from now on
+			w.keptArgs = append(w.keptArgs, keptArgs{at: id + "." + field.Name, raw: args, was: vhJS(am)})
+		}
 		w.mu.Unlock()
 	}
 	if w.panicAt != "" && w.panicAt == id+"."+field.Name {
@@ -1019,6 +1049,9 @@ func (w *World) callerVars(vars ValMap) map[string]interface{} {
 
 // checkNoVars: the shared empty variables map is still empty (reported once per run, as a difference in the data).
 func (w *World) checkNoVars(act *Actual) {
+	if w.argsTampered != "" {
+		act.Tampered, w.argsTampered = w.argsTampered, ""
+	}
 	if len(NoVars) == 0 {
 		return
 	}
